@@ -12,7 +12,7 @@ EV == Name("e")
 KC == Attr(Name("K"), "C")
 KD == Attr(Attr(Name("K"), "Inner"), "D")
 AM == Attr(Name("aux"), "M")
-Shapes == {"S1", "S2", "S3", "S4", "S5", "S6", "S7", "S9", "S10", "S11", "S12", "S13", "S14", "S15", "S16"}
+Shapes == {"S1", "S2", "S3", "S4", "S5", "S6", "S7", "S9", "S10", "S11", "S12", "S13", "S14", "S15", "S16", "S17"}
 ShapeTerm(sh) ==
     CASE sh = "S1"  -> Lam1("e", Meth(EV, "f", <<Name("v")>>))
       [] sh = "S2"  -> Lam1("e", Meth(EV, "f", <<Name("G")>>))
@@ -34,6 +34,8 @@ ShapeTerm(sh) ==
       [] sh = "S16" -> Lam1("e", Meth(Attr(EV, "jets"), "Select",
                             <<Lam1("j", Meth(Attr(Name("j"), "trks"), "Select",
                                             <<Lam1("t", BinOp("+", BinOp("+", Attr(Name("t"), "pt"), Name("v")), KC))>>))>>))
+      \* S17 is a one-line def (the SAME function object at every Build), S1 is a fresh lambda each time
+      [] sh = "S17" -> Lam1("e", BinOp("+", Meth(EV, "f", <<Name("v")>>), Name("G")))
       [] sh = "S14" -> Lam1("G", Tup(<<Comp("list", "G", Attr(Name("G"), "pt"), Attr(Name("G"), "jets"), <<>>),
                                       Name("G")>>))
       [] OTHER      -> Lam1("e", Comp("list", "j", BinOp("+", Attr(Name("j"), "pt"), Name("G")), Attr(EV, "jets"),
